@@ -18,6 +18,8 @@ BATCH = 40
 def make_doc(keys, table):
     # 'solo:' documents contain nothing but their own entries (the support entries would add enum members, which
     # carry compiler-generated c:identifier attributes, to the attribute table)
+    if len(keys) == 1 and isinstance(table[keys[0]], girgen.Doc):
+        return table[keys[0]]         # a generator may supply the whole document (its includes are the point)
     support = [] if all(k.startswith('solo:') for k in keys) else list(gens.SUPPORT)
     names = support + [k for k in keys if k not in gens.SUPPORT]
     entries = []
